@@ -471,6 +471,7 @@ pub proof fn axiom_trim(s: Seq<char>)
         trim_spec(s).len() > 0 ==> !is_ws(trim_spec(s)[0]) && !is_ws(trim_spec(s).last()),
         is_ws(' ') && is_ws('\n') && is_ws('\r') && is_ws('\t'),
         forall|c: char| ('0' <= c && c <= '9') ==> !is_ws(c),
+        forall|c: char| ('!' <= c && c <= '~') ==> !is_ws(c),      // printable ASCII other than the space
 {
 }
 
